@@ -35,6 +35,10 @@ pub fn install_panic_hook() {
     }));
 }
 
+pub fn last_panic() -> String {
+    PANIC_MSG.lock().map(|g| g.clone()).unwrap_or_default()
+}
+
 pub fn build_engine(kind: &str) -> Engine {
     let mut e = match kind {
         "base" => Engine::new_base(),
@@ -76,7 +80,7 @@ pub fn run_step(engine: &mut Engine, cap: &mut OutCapture, step: &Value) -> Valu
             match r {
                 Ok(r) => enc_result(r, out),
                 Err(_) => {
-                    let m = PANIC_MSG.lock().map(|g| g.clone()).unwrap_or_default();
+                    let m = last_panic();
                     json!({"s":"panic","m":m,"out":out})
                 }
             }
